@@ -1052,6 +1052,8 @@ type scenarioEntry struct {
 	Test       string `json:"test"`
 	What       string `json:"what"`
 	Race       bool   `json:"race"`
+	Props      []string `json:"props"`
+	NoHistory  bool   `json:"no_history"` // not run as a standing history in the thorough tier
 }
 
 // runScenario runs the hand-written scenario test registered for this
